@@ -7,6 +7,7 @@ ids="${@:-$(ls seeded)}"
 for id in $ids; do
   d=/verif/seeded/$id
   checks=$(/venv/bin/python -c "import json;m=json.load(open('$d/meta.json'));print(' '.join(m.get('caught_by') or m.get('checks_run') or m['checks']))")
+  if grep -q not_portable $d/meta.json; then echo "$id: kept against its own base (see meta.json)"; continue; fi
   if ! git -C /repo apply --check $d/patch.diff 2>/dev/null; then echo "$id: PATCH DOES NOT APPLY"; continue; fi
   git -C /repo apply $d/patch.diff
   hit=0
